@@ -281,7 +281,9 @@ ItEvent(e) ==
                 /\ e.msgs = (IF crossed THEN <<SyncMsg(sum2)>> ELSE <<>>)
       (* the amount booked for the iteration is the instruction's own charge (C20) times ONE speed factor for the  *)
       (* whole run (the emulator's "temporary speed adjustment"; whatever its value, it is the same every time)     *)
-      costed == ~lite /\ found /\ ~anyx /\ x.res = "ok" /\ x.cyc > 0
+      (* (an instruction whose words straddle two regions is left out: "the instruction's own area" is not one area) *)
+      costed == /\ ~lite /\ found /\ ~anyx /\ x.res = "ok" /\ x.cyc > 0 /\ x.row > 0
+                /\ RegionOf(ta.s.pc) = RegionOf(ta.s.pc + RowLen(Forms[x.row]) - 1)
       chargeOK == ~costed \/ (IF vR.kf = 0 THEN e.st > 0 /\ e.st % x.cyc = 0 ELSE e.st = vR.kf * x.cyc)
       ok == /\ ~vPaused /\ ~vStopped /\ vS.pc # vExit
             /\ found /\ chargeOK
